@@ -67,14 +67,17 @@ define flow answer from variable
 
 def v1_world(in_order=(), out_order=(), dialog=False, exceptions=False, extra_yaml="", extra_colang="", param_rails=False):
     # only configured rails are defined: an unconfigured `define flow x` would be an ordinary dialog flow
-    prails = ()
+    prails = qrails = ()
     if param_rails:
         # ONE rail flow configured several times with different parameters: the library's
         # `content safety check input $model=<m>` (the only parameterised rail names the config validation accepts);
         # its action is replaced by a stub that is called with rail=<m> (allow / reject only)
         prails = tuple(in_order)
-        colang = "".join(v1_rail(r, "output") for r in out_order)
+        qrails = tuple(out_order) if param_rails == "both" else ()
+        colang = "" if qrails else "".join(v1_rail(r, "output") for r in out_order)
         in_order = tuple(f"content safety check input $model={r}" for r in in_order)
+        if qrails:
+            out_order = tuple(f"content safety check output $model={r}" for r in out_order)
     else:
         colang = "".join(v1_rail(r, "input") for r in in_order) + "".join(v1_rail(r, "output") for r in out_order)
     if dialog:
@@ -97,6 +100,12 @@ def v1_world(in_order=(), out_order=(), dialog=False, exceptions=False, extra_ya
             return {"allowed": ok is not False, "policy_violations": []}
 
         w.rails.register_action(content_safety_check_input, name="content_safety_check_input")
+
+        async def content_safety_check_output(context=None):
+            ok = w._rail_sync((context or {}).get("model"), (context or {}).get("bot_message"))
+            return {"allowed": ok is not False, "policy_violations": []}
+
+        w.rails.register_action(content_safety_check_output, name="content_safety_check_output")
     return w
 
 
